@@ -25,6 +25,7 @@ var classes = []class{
 	{grun.FindErrexitNeg, func(c Case, f *syntax.File) bool { return grun.ErrexitUnderNegation(f) }},
 	{grun.FindErrexitSub, func(c Case, f *syntax.File) bool { return grun.ErrexitIgnoredContextLostInSubshell(f) }},
 	{grun.FindForVarRet, func(c Case, f *syntax.File) bool { return grun.ForContinuesAfterReturn(f) }},
+	{grun.FindExitTrapRd, func(c Case, f *syntax.File) bool { return grun.ExitTrapUnderRedirection(f) }},
 	{grun.FindWhileStat, func(c Case, f *syntax.File) bool { return grun.WhileBodyMayFail(f) }},
 }
 
